@@ -10,29 +10,59 @@ import struct
 
 import yaml
 
-INT_T = {
-    "int": [0, -1, 2147483647, -2147483648, 42],
-    "long": [0, -1, 9223372036854775807, -9223372036854775808, 77],
-    "short": [0, -1, 32767, -32768, 5],
+# every predefined native typemap: (bits, signed)
+ITYPES = {
+    "int": (32, True), "long": (64, True), "short": (16, True), "long long": (64, True),
+    "unsigned int": (32, False), "unsigned long": (64, False), "unsigned long long": (64, False), "unsigned short": (16, False),
+    "size_t": (64, False),
+    "int8_t": (8, True), "int16_t": (16, True), "int32_t": (32, True), "int64_t": (64, True),
+    "uint8_t": (8, False), "uint16_t": (16, False), "uint32_t": (32, False), "uint64_t": (64, False),
 }
+
+
+def _ivals(bits, signed):
+    lo, hi = (-(1 << (bits - 1)), (1 << (bits - 1)) - 1) if signed else (0, (1 << bits) - 1)
+    vals = [0, hi, lo if signed else hi - 1, 42]
+    if signed:
+        vals.insert(1, -1)
+    for b in (1 << 31, 1 << 32, 1 << 63, (1 << 31) - 1, 1 << 15):     # boundary values that distinguish the widths
+        if lo <= b <= hi and b not in vals:
+            vals.append(b)
+        if signed and lo <= -b <= hi and -b not in vals:
+            vals.append(-b)
+    return vals
+
+
+INT_T = {t: _ivals(*bs) for t, bs in ITYPES.items()}
 DBL = [0.0, -0.0, 1.5, -2.25e300, 5e-324]
+FLT = [0.0, -0.0, 1.5, -3.4028234663852886e38, 1.401298464324817e-45]
+NATIVES = list(ITYPES) + ["double", "float"]
 STRS = ["", "a", "hello world", "x y  z ", "0123456789abcdef0123456789"]
 ENUM = [("RED", 3), ("GREEN", 7), ("BLUE", -2)]
 
 
+def vals_of(t):
+    return DBL if t == "double" else (FLT if t == "float" else INT_T[t])
+
+
 def lit(t, v):
     if t == "double":
-        return float(v).hex() if v == v else "0.0"
-    if t == "long":
-        return "(-9223372036854775807L-1)" if v == -9223372036854775808 else "%dL" % v
-    if t == "int":
-        return "(-2147483647-1)" if v == -2147483648 else "%d" % v
-    return "((short)%d)" % v
+        return float(v).hex()
+    if t == "float":
+        return float(v).hex() + "f"
+    bits, signed = ITYPES[t]
+    if not signed:
+        return "((%s)%dULL)" % (t, v)
+    if v == -(1 << 63):
+        return "((%s)(-9223372036854775807LL-1))" % t
+    return "((%s)%dLL)" % (t, v)
 
 
 def rep(t, v):
     if t == "double":
         return "%016x" % struct.unpack("<Q", struct.pack("<d", v))[0]
+    if t == "float":
+        return "%08x" % struct.unpack("<I", struct.pack("<f", v))[0]
     return "%d" % v
 
 
@@ -40,6 +70,10 @@ def show(t, expr):
     """C/C++ statement printing a native value"""
     if t == "double":
         return "sh_d(%s);" % expr
+    if t == "float":
+        return "sh_f(%s);" % expr
+    if t in ITYPES and not ITYPES[t][1]:
+        return 'printf("%%llu", (unsigned long long)(%s));' % expr
     return 'printf("%%lld", (long long)(%s));' % expr
 
 
@@ -299,7 +333,7 @@ def gen_param(r, spec, i, allow_class=True, allow_struct=True):
     fam = r.choice(fams)
     n = "a%d" % i
     if fam == "native":
-        t = r.choice(["int", "long", "short", "double", "int", "double"])
+        t = r.choice(["int", "double"] + NATIVES)
         mode = r.choice(["val", "val", "val", "ptr", "ptr", "ref", "ref", "pp", "pr"])
         if mode in ("pp", "pr"):
             # pointer to pointer / reference to pointer: the callee reads through or re-seats the caller's pointer
@@ -355,7 +389,7 @@ def gen_ret(r, spec, allow_struct=True):
     if not allow_struct and k.startswith("struct"):
         k = "native"
     if k in ("native", "nativeptr", "nativeref"):
-        return (k, r.choice(["int", "long", "double", "short"]))
+        return (k, r.choice(["int", "double"] + NATIVES))
     if k.startswith("class"):
         if not spec.classes:
             return ("void",)
@@ -507,6 +541,16 @@ def gen_spec(r, name, rich=True, nfree=None):
     for j in range(nfree):
         ps = [gen_param(r, spec, i) for i in range(r.randrange(0, 5))]
         funcs.append(Func("fn%d" % j, ps, gen_ret(r, spec)))
+    if allcls and r.random() < 0.6:
+        # overloads that differ only in the constness of a class reference / pointer parameter
+        c = r.choice(allcls)
+        mode = r.choice(["ref", "ptr"])
+        where = r.choice([None] + [x for x in allcls if allcls.index(x) >= allcls.index(c)])
+        pair = [Func("cq", [Param("class", c, mode, "inout", "a0")], ("void",), cls=where),
+                Func("cq", [Param("class", c, mode, "in", "a0", const=True)], ("void",), cls=where)]
+        if r.random() < 0.5:
+            pair.reverse()
+        funcs += pair
     if r.random() < 0.7:
         funcs += gen_overloads(r, "ov", with_default=r.random() < 0.3)
     for c in allcls:
@@ -550,7 +594,7 @@ def gen_spec(r, name, rich=True, nfree=None):
         f.fid = i
         for p in f.params:
             if p.fam == "native" and p.t not in ("T", "U", "V"):
-                f.consts[p.name] = r.choice(DBL if p.t == "double" else INT_T[p.t])
+                f.consts[p.name] = r.choice(vals_of(p.t))
             elif p.fam == "bool":
                 f.consts[p.name] = r.random() < 0.5
             elif p.fam == "enum":
@@ -560,7 +604,7 @@ def gen_spec(r, name, rich=True, nfree=None):
             elif p.fam == "struct":
                 f.consts[p.name] = (r.randrange(-9, 99), r.choice([0.25, -3.5]))
         if f.ret[0] in ("native", "nativeptr", "nativeref"):
-            f.consts["ret"] = r.choice(DBL if f.ret[1] == "double" else INT_T[f.ret[1]])
+            f.consts["ret"] = r.choice(vals_of(f.ret[1]))
         elif f.ret[0] == "tparam":
             f.consts["ret"] = r.choice([7.5, -2.25, 100.75])
         elif f.ret[0] == "bool":
@@ -630,6 +674,13 @@ def fixed_spec(name="ogf"):
         Func("lab", [S("a0")], ("void",)),
         Func("lab", [Param("bool", "bool", "val", "in", "a0")], ("void",)),
         Func("lab", [Param("cstr", "char", "ptr", "in", "a0", const=True)], ("void",)),
+        Func("cq", [K("a0", "ref")], ("void",)),
+        Func("cq", [K("a0", "ref", const=True)], ("void",)),
+        Func("cp", [K("a0", "ptr", const=True)], ("void",), cls="K0"),
+        Func("cp", [K("a0", "ptr")], ("void",), cls="K0"),
+        Func("wide", [N("unsigned long", "a0"), N("unsigned long", "a1"), N("size_t", "a2"), N("long long", "a3"),
+                      N("unsigned int", "a4"), N("unsigned long", "a5", "ptr", "inout"), N("uint64_t", "a6", "ref", "out")],
+             ("native", "unsigned long")),
         Func("byv", [Param("string", "string", "val", "in", "a0")], ("void",)),
         Func("byv", [Param("bool", "bool", "val", "in", "a0")], ("void",)),
         Func("tag", [S("a0")], ("void",), cls="K0"),
@@ -648,7 +699,7 @@ def fixed_spec(name="ogf"):
         f.fid = i
         for p in f.params:
             if p.fam == "native" and p.t not in ("T", "U", "V"):
-                f.consts[p.name] = r.choice(DBL if p.t == "double" else INT_T[p.t])
+                f.consts[p.name] = r.choice(vals_of(p.t))
             elif p.fam == "bool":
                 f.consts[p.name] = r.random() < 0.5
             elif p.fam == "enum":
@@ -659,7 +710,7 @@ def fixed_spec(name="ogf"):
                 f.consts[p.name] = (r.randrange(-9, 99), r.choice([0.25, -3.5]))
         k = f.ret[0]
         if k in ("native", "nativeptr", "nativeref"):
-            f.consts["ret"] = r.choice((DBL if f.ret[1] == "double" else INT_T[f.ret[1]])[1:])
+            f.consts["ret"] = r.choice((vals_of(f.ret[1]))[1:])
         elif k == "tparam":
             f.consts["ret"] = 7.5
         elif k == "bool":
